@@ -211,6 +211,15 @@ def _m2(op, alias):
              harness=M2_H % dict(name=name, D=mpq_obj('D'), S=mpq_obj('S'), alias='  mpq_ptr d = &D; mpq_srcptr s = %s;' % ('d' if alias else '&S'), R=R, L=L, f=f), timeout=1500,
              selftest=[('mord_2exp', r'n -= shift;', ';'), ('mord_2exp', r'len -= \(rdst_ptr\[len-1\] == 0\);', ';'), ('mord_2exp', r'len -= \(p - rsrc_ptr\);', 'len -= (p - rsrc_ptr) - 1;')] if op == 'mul_2exp' and alias else [])
     return u
+# one run over all paths got no verdict in 25 min (DESIGN 11.3): split by path - whole limbs stripped or not (z > 0 / z == 0) x copy or bit shift - as separate runs
 for _op in ('mul_2exp', 'div_2exp'):
     for _al in (0, 1):
-        UNITS.append(_m2(_op, _al)); UNITS[-1]['tier'] = 'off'        # not decided yet on the unchanged tree (DESIGN 11.3); the bounded unit mpq_2exp_enum stands in
+        for _zt, _zc in (('z0', 'z == 0'), ('zp', 'z > 0')):
+            for _pt, _pc in (('copy', 'shift == 0'), ('shift', 'shift != 0')):
+                _u = _m2(_op, _al)
+                _old = _u['name']; _u['name'] = _old + '_' + _zt + '_' + _pt
+                _u['harness'] = _u['harness'].replace('h_' + _old + ' (void)', 'h_' + _u['name'] + ' (void)').replace('  long len0 = rn - z;', '  long len0 = rn - z;\n  __CPROVER_assume (%s && %s);' % (_zc, _pc))
+                _u['assumptions'] = _u['assumptions'] + ['path partition: %s, %s (the four path partitions are separate units)' % (_zc, _pc)]
+                if not (_op == 'mul_2exp' and _al and _zt == 'zp'): _u['selftest'] = []
+                _u['tier'] = 'off'        # enabled below once decided on the unchanged tree
+                UNITS.append(_u)
